@@ -608,9 +608,12 @@ def j_rules(p: Project, rep: Report):
         fcfg = CFG(fn)
         merges = fcfg.nodes_calling(lambda c: text(c.func) == "_merge_acctinfo")
         reads = [n for n in fcfg.nodes if any(isinstance(x, ast.Subscript) and text(x.value) == "args" and (text(x.slice).strip("'\"") in want_keys or isinstance(x.slice, ast.Name)) for e in n.exprs() for x in ast.walk(e))]
+        # the client that sends the statement request takes bankid / brokerid from args when it is built
+        senders = {text(c.func.value) for c in own_nodes(fn) if isinstance(c, ast.Call) and isinstance(c.func, ast.Attribute) and c.func.attr == "request_statements"}
+        reads += [n for n in fcfg.nodes if isinstance(n.stmt, (ast.Assign, ast.AnnAssign)) and n.kind in ("assign", "annassign") and isinstance(n.stmt.value, ast.Call) and text(n.stmt.value.func) == "init_client" and text(n.stmt.targets[0] if isinstance(n.stmt, ast.Assign) else n.stmt.target) in senders]
         r_all = fcfg.reachable(fcfg.entry.id, edge_filter=assume({"args['all']": True}))
         ok = bool(merges) and all(fcfg.dominated_by(n.id, [m_.id for m_ in merges], edge_filter=assume({"args['all']": True})) for n in reads if n.id in r_all and not any(isinstance(x, ast.Subscript) and text(x.slice).strip("'\"") in ("all",) for e in n.exprs() for x in ast.walk(e)))
-        rep.check("J-R1", f"{fname}:--all-merges-before-reading-accounts", ok, "" if ok else "with --all the account lists are read before the discovered accounts are merged in", gloc(p, fn))
+        rep.check("J-R1", f"{fname}:--all-merges-before-reading-accounts", ok, "" if ok else "with --all the account lists (or the bank / broker id the sending client is built with) are read before the discovered accounts are merged in", gloc(p, fn))
 
     rep.rule("J-R2", "discovered accounts: every account id taken from the account-information response is collected only under _acctIsActive, which is exactly `svcstatus == 'ACTIVE'` (a member of SVCSTATUSES); the dispatcher's keys are *ACCTINFO classes that ACCTINFO can contain; the grouped records are sorted by the group key first; bank accounts are filed under their own account type")
     from .paths import return_paths
